@@ -13,14 +13,15 @@ Lbl(x) == hist' = Append(hist, x)
 Op(a) == \/ (Create(a) /\ Lbl(<<"create", a>>)) \/ (Write(a) /\ Lbl(<<"write", a>>)) \/ (Chmod(a) /\ Lbl(<<"chmod", a>>))
          \/ (Unlink(a) /\ Lbl(<<"unlink", a>>)) \/ (MoveOut(a) /\ Lbl(<<"moveout", a>>)) \/ (MoveIn(a) /\ Lbl(<<"movein", a>>))
          \/ \E b \in Names : Rename(a, b) /\ Lbl(<<"rename", a, b>>)
+OpFd == \/ (Open /\ Lbl(<<"open", fmark>>)) \/ (FdWrite /\ Lbl(<<"fdwrite">>)) \/ (Release /\ Lbl(<<"release">>))
 ReadAll == /\ buf = <<>> /\ out = NoEv /\ kq # <<>> /\ buf' = kq /\ kq' = <<>>
-           /\ UNCHANGED <<present, fmark, w2end, cookie, nops, tab, out, ring, ridx, evq, want, got>>
+           /\ UNCHANGED <<present, fmark, w2end, held, hgone, prepd, cookie, nops, tab, out, ring, ridx, evq, want, got>>
 Busy == (buf = <<>> /\ out = NoEv /\ kq # <<>>) \/ (buf # <<>> /\ out = NoEv)          \* the reader can go on by itself
 GNext == \/ /\ Busy /\ (ReadAll \/ Handle) /\ UNCHANGED <<hist, draining>>
          \/ /\ ~Busy /\ draining /\ out # NoEv /\ Recv /\ UNCHANGED <<hist, draining>>
          \/ /\ ~Busy /\ draining /\ out = NoEv /\ draining' = FALSE /\ UNCHANGED <<vars, hist>>
          \/ /\ ~Busy /\ ~draining /\ out # NoEv /\ nops >= 1 /\ draining' = TRUE /\ Lbl(<<"drain">>) /\ UNCHANGED vars
-         \/ /\ ~Busy /\ ~draining /\ nops < GenSteps /\ (\E a \in Names : Op(a)) /\ UNCHANGED draining
+         \/ /\ ~Busy /\ ~draining /\ nops < GenSteps /\ ((OpFd \/ \E a \in Names : Op(a))) /\ UNCHANGED draining
 GSpec == GInit /\ [][GNext]_gvars
 Emit == (nops = GenSteps /\ Drained /\ ~draining) =>
           PrintT(<<"SCN", ToJson([hist |-> hist, want |-> [i \in 1..Len(want) |-> Ideal(i)]])>>)
